@@ -156,6 +156,9 @@ fn mk(cfg: &RunCfg) -> Box<dyn Oracle> {
 fn msg_ties(g: &mut Gen) {
     g.cfg.weights.msg += 6;
     g.cfg.weights.dup += 1;
+    // removals and re-invitations: a client that still holds messages of the group is invited again
+    g.cfg.weights.remove += 2;
+    g.cfg.weights.invite += 3;
 }
 
 pub fn spec() -> CheckSpec {
